@@ -40,7 +40,7 @@ def run_item(it):
         from coco import decb_to_b09
         d = os.path.join(run.WORK, "c12cli-%d" % os.getpid())
         os.makedirs(d, exist_ok=True)
-        src, dst, cfg = os.path.join(d, "prog.bas"), os.path.join(d, "prog.b09"), os.path.join(d, "b09.yaml")
+        src, dst, cfg = os.path.join(d, it.get("stem", "prog") + ".bas"), os.path.join(d, "prog.b09"), os.path.join(d, "b09.yaml")
         with open(src, "w", newline="") as f:
             f.write(it["text"])
         argv = list(it["flags"])
@@ -50,11 +50,23 @@ def run_item(it):
             argv += ["-c", cfg]
         # the output file of the previous run is left where it is: a conversion replaces it, whatever it held
         saved = (sys.stdout, sys.stderr)
-        sys.stdout, sys.stderr = io.StringIO(), io.StringIO()
+
+        class Out(io.StringIO):
+            def close(self):        # the tool closes its output file; what it wrote is read afterwards
+                pass
+
+        sys.stdout, sys.stderr = Out(), io.StringIO()
         try:
-            decb_to_b09.start(argv + [src, dst])
-            with open(dst, "rb") as f:
-                data = f.read()
+            if it.get("to_stdout"):
+                # the program goes to standard output ('-'): what this call writes there is this call's output - nothing
+                # else belongs on that stream, and nothing of it on the stream of an earlier call
+                mine = sys.stdout
+                decb_to_b09.start(argv + [src, "-"])
+                data = mine.getvalue().encode("utf-8", "replace")
+            else:
+                decb_to_b09.start(argv + [src, dst])
+                with open(dst, "rb") as f:
+                    data = f.read()
         except BaseException as exc:  # noqa: BLE001 - SystemExit included
             data = ("EXC:" + type(exc).__name__).encode()
         finally:
